@@ -81,7 +81,7 @@ class Tracer:
         os._exit(77)
 
     # -- wrappers ----------------------------------------------------------------------------
-    def install(self):
+    def install(self, modules=("nifty.re.optimize_kl",)):
         tr = self
         o_open = builtins.open
         self.orig["open"] = o_open
@@ -173,14 +173,16 @@ class Tracer:
         pairs += [wrap2("shutil", "move", "replace"), wrap2("shutil", "copyfile", "copy"),
                   wrap2("shutil", "copy", "copy"), wrap2("shutil", "copy2", "copy"),
                   wrap1("shutil", "rmtree", "rmtree")]
-        # names bound by `from os import makedirs` etc. inside the module under test
-        import nifty.re.optimize_kl as M
-        for k, v in list(vars(M).items()):
-            if k == "open":
-                setattr(M, k, t_open)
-            for orig, w in pairs:
-                if v is orig:
-                    setattr(M, k, w)
+        # names bound by `from os import makedirs` etc. inside the modules under test
+        import importlib
+        for mn in modules:
+            M = importlib.import_module(mn)
+            for k, v in list(vars(M).items()):
+                if k == "open":
+                    setattr(M, k, t_open)
+                for orig, w in pairs:
+                    if v is orig:
+                        setattr(M, k, w)
 
     def read_real(self, name):
         try:
